@@ -68,6 +68,27 @@ def race_key(t):
     return "race:" + "|".join(sorted([a, b]))
 
 
+def build_plugin(run):
+    """plugin_M_m.so (exports M, used in rules as m) built with the race detector, or None"""
+    import subprocess
+    d = os.path.join(run.scratch, "plug")
+    os.makedirs(d, exist_ok=True)
+    open(os.path.join(d, "go.mod"), "w").write("module verifplug\n\ngo 1.16\n")
+    open(os.path.join(d, "plugin_m.go"), "w").write(
+        "package main\n\ntype Helper struct{}\n\nfunc (h *Helper) Ping() int64 { return 1 }\n\nvar M = Helper{}\n")
+    so = os.path.join(d, "plugin_M_m.so")
+    env = dict(os.environ, GOFLAGS="-mod=mod", GOPROXY="off", GOSUMDB="off", GOTOOLCHAIN="local", CGO_ENABLED="1")
+    try:
+        p = subprocess.run(["go", "build", "-buildmode=plugin", "-race", "-o", so, "plugin_m.go"], cwd=d, env=env,
+                           capture_output=True, text=True, timeout=600)
+    except Exception:
+        return None
+    if p.returncode != 0 or not os.path.exists(so):
+        run.log("plugin build failed (plugin hot-load sessions left out): " + (p.stderr or "")[-200:].replace("\n", " "))
+        return None
+    return so
+
+
 def stderr_of(run, label_path):
     txt = ""
     d = os.path.dirname(label_path)
@@ -185,6 +206,22 @@ def check_c19(run):
             r.update(q=qn + 1)
             reqs.append(r)
         cold.append({"id": 7000000 + i, "kind": "cold", "min": mn, "max": mx, "silent": True, "rules": [], "script": [{"op": "burst", "reqs": reqs, "flips": 300 if i % 3 == 0 else 0}]})
+    # a plugin that is hot-loaded (GenginePool.PluginLoader: a management call that writes every instance's data context)
+    # while requests are calling injected functions.  Needs cgo and a race-enabled plugin build; where the sandbox
+    # cannot build or open a plugin these sessions are left out and the evidence says so.
+    plug = build_plugin(run)
+    nplug = 0
+    if plug:
+        for i in range(20 if quick else 150):
+            mn = rng.randint(2, 3)
+            reqs = []
+            for qn in range(mn):
+                r = P.call_for(rng.choice(["Execute", "em"]), ["k1", "k2", "k3", "k4"], 4)
+                r.update(q=qn + 1)
+                reqs.append(r)
+            cold.append({"id": 7500000 + i, "kind": "cold", "min": mn, "max": mn + 1, "silent": True, "rules": [],
+                         "script": [{"op": "burst", "reqs": reqs, "plugin": plug}]})
+            nplug += 1
     binary = run.go_build("pooldrv", race=True)
     sp = os.path.join(run.scratch, "sessions-cold.ndjson")
     tp = os.path.join(run.scratch, "traces-cold.ndjson")
@@ -199,6 +236,11 @@ def check_c19(run):
     reports += cold_reports
     total += len(cold)
     run.cov["cold_tree_sessions"] = len(cold)
+    pl = [e for e in cold_evs if e.get("ev") == "cold_plugin"]
+    run.cov["plugin_hot_load_sessions"] = ("%d (plugin loaded in %d)" % (nplug, sum(1 for e in pl if not e["err"]))) if plug else \
+        "none: a race-enabled plugin could not be built in this sandbox"
+    if plug and pl and all(e["err"] for e in pl):
+        run.cov["plugin_hot_load_sessions"] = "none: the plugin does not open here (%s)" % pl[0]["err"][:120]
     seen = {}
     for t in reports:
         seen.setdefault(race_key(t), []).append(t)
